@@ -101,6 +101,14 @@ def gen_datetime(rng):
     deviation = rng.choice((None, None, -720, -1, 0, 1, 60, -60, 120, 720, rng.randint(-720, 720)))
     status = rng.choice((0, 0xFF, 0x80, 0x01, rng.randrange(256)))
     dow = rng.choice((1, 7, 0xFF, rng.randrange(256)))
+    if rng.random() < 0.04:
+        # the two ends of the calendar, with a deviation that puts the UTC instant beyond it
+        if rng.random() < 0.5:
+            year, month, day, hour, minute = 1, 1, 1, 0, rng.randrange(60)
+            deviation = rng.choice((-720, -60, -1, -120, 60, None))
+        else:
+            year, month, day, hour, minute = 9999, 12, 31, 23, rng.randrange(60)
+            deviation = rng.choice((720, 60, 1, 120, -60, None))
     dt12 = ce.datetime12(year, month, day, dow, hour, minute, second, hundredths, deviation, status)
     spec = {"civil": [year, month, day, hour, minute, second], "us": 0 if hundredths is None else hundredths * 10000,
             "offset_min": None if deviation is None else -deviation, "status": status, "deviation": deviation, "hundredths": hundredths}
